@@ -1177,8 +1177,10 @@ func isFreshErrorV(v ssa.Value) bool {
 	switch x := v.(type) {
 	case *ssa.Call:
 		switch calleeName(x) {
-		case "fmt.Errorf", "errors.New", "errors.Join":
+		case "fmt.Errorf", "errors.New":
 			return true
+		case "errors.Join":
+			return joinedSome(x, isFreshErrorV)
 		}
 	case *ssa.UnOp:
 		if _, ok := x.X.(*ssa.Global); ok && x.Op == token.MUL {
@@ -1186,6 +1188,34 @@ func isFreshErrorV(v ssa.Value) bool {
 		}
 	case *ssa.MakeInterface:
 		return true
+	}
+	return false
+}
+
+// joinedSome: errors.Join returns nil when every error handed in is nil: the result is certainly an error only if
+// one of the listed errors certainly is.
+func joinedSome(c *ssa.Call, certain func(ssa.Value) bool) bool {
+	if len(c.Call.Args) != 1 {
+		return false
+	}
+	sl, ok := c.Call.Args[0].(*ssa.Slice)
+	if !ok {
+		return false
+	}
+	arr, ok := sl.X.(*ssa.Alloc)
+	if !ok {
+		return false
+	}
+	for _, ref := range *arr.Referrers() {
+		ia, ok := ref.(*ssa.IndexAddr)
+		if !ok {
+			continue
+		}
+		for _, r2 := range *ia.Referrers() {
+			if st, ok := r2.(*ssa.Store); ok && st.Addr == ssa.Value(ia) && certain(st.Val) {
+				return true
+			}
+		}
 	}
 	return false
 }
